@@ -1058,6 +1058,65 @@ func (g *Gen) VerifyFunction(fn *ssa.Function, fc *FuncContract) error {
 			o.Expect = "sat"
 		}
 	}
+	if fc.Opts["per-return"] != "" {
+		// opt per-return: every ensures (and the frame) is checked once per return statement, in that return's own state under
+		// its reach condition — the same meaning as on the merged exit state, without the n-way ite chains of the merge
+		for _, r := range fr.rets {
+			r := r
+			env := fr.envAt(r.st, nil, 0)
+			env.lookup = func(name string) (Val, bool) {
+				for _, p := range fn.Params {
+					if p.Name() == name {
+						return fr.vals[p], true
+					}
+				}
+				for _, fv := range fn.FreeVars {
+					if fv.Name() == name {
+						v := fr.vals[fv]
+						if pt, ok := fv.Type().Underlying().(*types.Pointer); ok {
+							return g.loadPtr(r.st, v, pt.Elem()), true
+						}
+						return v, true
+					}
+				}
+				if v, ok := fr.letVals[name]; ok {
+					return v, true
+				}
+				return Val{}, false
+			}
+			for i := range r.results {
+				if r.results[i].Loc != nil && r.results[i].T == "" {
+					r.results[i].Bad = "symbolic address returned"
+				}
+			}
+			bindResults(env.vars, fn.Signature, r.results)
+			g.curEnv = func() *Env { return env }
+			for i, c := range fc.Ensures {
+				lbl := c.Label
+				if lbl == "" {
+					lbl = fmt.Sprint(i + 1)
+				}
+				if c.Assumed {
+					g.trusted[fmt.Sprintf("assumed postcondition [%s] of %s: %s", lbl, shortCallee(fc.Key), c.Src)] = true
+					continue
+				}
+				t, err := env.EvalBool(c.E)
+				if err != nil {
+					return fmt.Errorf("%s:%d: ensures: %v", c.File, c.Line, err)
+				}
+				props := fc.Props
+				if len(c.Props) > 0 {
+					props = c.Props
+				}
+				o := g.oblige("ensures", fr.oname("ensures", lbl), lbl, props, r.reach, t, c.Src, fn.Pos())
+				fr.addModelValues(o, env)
+			}
+			if err := fr.frameObligations(r.st, r.reach, entryEnv, !(fc.ModSet && !fc.ModAll)); err != nil {
+				return err
+			}
+		}
+		return nil
+	}
 	exit := fr.mergeStates(conds, sts)
 	nres := fn.Signature.Results().Len()
 	results := make([]Val, nres)
